@@ -314,7 +314,7 @@ fn check_ids(ids: &[u8], big_endian: bool) -> CheckResult {
             // fields in turn (0..3 of its bytes present), without and with junk in front of the storage header; any
             // hint must not exceed the bytes that are missing
             let field_starts = [12usize, 20, 26, 30];
-            for junk in [&b""[..], &b"x"[..], &b"junkDLTjunk, more junk"[..]] {
+            for junk in [&b""[..], &b"x"[..], &b"junkDLTjunk, more junk"[..], &b"tornDLT"[..], &b"DL"[..]] {
                 let mut buf = junk.to_vec();
                 buf.extend_from_slice(&b);
                 if !junk.is_empty() {
